@@ -135,7 +135,15 @@ def _corr_case(rng, family):
         opts['covariance_norm'] = ['eigenvalue', 'trace', False][int(rng.integers(3))]
         opts['affiliation_eps'] = 0.0
     i = int(rng.integers(1, 7))
+    if family.startswith('gmm-') and rng.random() < 0.25:
+        y = _uncentred(rng, y)
     return dict(family=family, F=F, K=K, D=D, N=N, wca=wca, y=y, init=init, opts=opts, i=i, saliency=skind)
+
+
+def _uncentred(rng, x):
+    """un-centred Gaussian data (a common offset of 1e3..3e4 standard deviations): model and code both form deviations from
+    the mean before squaring, so they still agree to 1e-9; a second-moment formula (E x^2 - mean^2) does not"""
+    return x + 10.0 ** float(rng.uniform(3, 4.5)) * float(np.std(x)) * rng.choice([-1.0, 1.0], size=x.shape[-1])
 
 
 def _corr_case_integration(rng, family):
@@ -151,6 +159,8 @@ def _corr_case_integration(rng, family):
     init, _ = eu.positive_start(rng, (F,), K, N)
     skind = str(rng.choice(['none', 'random', 'integer']))
     sal = eu.make_saliency(rng, (F,), N, skind)
+    if rng.random() < 0.25:
+        e = _uncentred(rng, e)
     opts = {'weight_constant_axis': list(wca), 'saliency': sal,
             'covariance_norm': ['eigenvalue', 'trace', False][int(rng.integers(3))], 'affiliation_eps': 0.0}
     return dict(family=family, F=F, K=K, D=D, E=E, N=N, wca=wca, y=y, e=e, init=init, opts=opts, i=int(rng.integers(1, 6)),
@@ -265,9 +275,10 @@ def _compare(ctx, c, m, m_next, out):
         rep('mstep-concentration', ok, d)
     elif family.startswith('gmm-'):
         gn = m_next.gaussian
-        ok, d = _close(g[3].reshape(F, K, D), np.reshape(gn.mean, (F, K, D)))
+        # the new mean / covariance are posterior-weighted moments: they inherit the conditioning `cs` of the E-step
+        ok, d = _close(g[3].reshape(F, K, D), np.reshape(gn.mean, (F, K, D)), scale=cs * max(1.0, float(np.max(np.abs(gn.mean)))))
         rep('mstep-mean', ok, d)
-        ok, d = _close(g[4].reshape(np.shape(gn.covariance)), gn.covariance)
+        ok, d = _close(g[4].reshape(np.shape(gn.covariance)), gn.covariance, scale=cs * max(1.0, float(np.max(np.abs(gn.covariance)))))
         rep('mstep-covariance', ok, d)
     elif family == 'cwmm':
         cov = g[3].view(np.complex128).reshape(K, D, D)
@@ -367,6 +378,11 @@ def _judge(name, family, fam, models, data, opts, per_slice):
         g = fam.mstep_guard(m, opts)
         if g is not None:
             return judged, g
+        if singular_full_covariance(family, m):
+            # a class collapsed onto fewer than D + 1 points: its full covariance is singular to working precision
+            # (condition >= 1e11; sklearn's Cholesky check only just accepts it), the whitened residuals and with them the
+            # likelihood carry a relative error of condition * eps - "up to rounding" decides nothing from here on
+            return judged, 'numerically-singular-full-covariance'
         L = np.asarray(_likelihood(fam, m, data, opts, per_slice))
         if not np.all(np.isfinite(L)):
             return Fail(f'likelihood-not-finite:{family}', f'{name}: log-likelihood after iteration {i} is {L}')
